@@ -100,6 +100,10 @@ class ScriptedSubprocess(object):
         r = self.report
         if verb == 'minimize':
             if r['kind'] == 'json':
+                # rebench-denoise exits 1 *and* prints its JSON report whenever a setting "failed"
+                # (denoise.py main_func: EXIT_CODE_CHANGING_SETTINGS_FAILED)
+                if 'failed' in list(r['others']) + [r['nice'], r['shield']]:
+                    raise subprocess.CalledProcessError(1, cmd, output=report_output(r))
                 return report_output(r)
             if r['kind'] == 'nonjson':
                 if r['msg'] == 'password':
@@ -242,17 +246,27 @@ def run_denoise_session(workdir, argv, script, report, cset=None, num_cores=4, n
 
 # ------------------------------------------------------ parallel scheduler
 class BrokenPipeStream(io.StringIO):
-    """stdout whose reader has left: after `ok_writes` successful writes every write / flush raises"""
-    def __init__(self, ok_writes):
+    """stdout that fails at the (ok_writes+1)-th write:
+    * 'broken-pipe': its reader has left, that and every later write / flush raises BrokenPipeError;
+    * 'keyboard-interrupt': Ctrl-C (or SIGTERM through ReBench's handler) arrives while that one
+      write is in progress: KeyboardInterrupt is raised there, once;
+    * 'sigint': a real SIGINT is delivered to the process during that write, once."""
+    def __init__(self, ok_writes, mode='broken-pipe'):
         io.StringIO.__init__(self)
         self.ok_writes = ok_writes
+        self.mode = mode
         self.broken_at = None
 
     def _check(self):
-        if self.ok_writes <= 0:
+        if self.ok_writes <= 0 and (self.mode == 'broken-pipe' or self.broken_at is None):
             if self.broken_at is None:
                 self.broken_at = len(self.getvalue())
-            raise BrokenPipeError(32, 'Broken pipe')
+            if self.mode == 'broken-pipe':
+                raise BrokenPipeError(32, 'Broken pipe')
+            if self.mode == 'keyboard-interrupt':
+                raise KeyboardInterrupt()
+            os.kill(os.getpid(), signal.SIGINT)
+            time.sleep(0.01)
 
     def write(self, text):
         self._check()
@@ -260,7 +274,8 @@ class BrokenPipeStream(io.StringIO):
         return io.StringIO.write(self, text)
 
     def flush(self):
-        self._check()
+        if self.mode == 'broken-pipe':
+            self._check()
 
     def isatty(self):
         return False
